@@ -81,18 +81,6 @@ impl LogicalLineFileFormatter for OptimisingLineFormatter {
         }
 
         /*
-            After each line's solution has been finalised, the extra spaces
-            provided by `TokenSpacing` can be removed at the starts of lines.
-        */
-        for token_index in 0..olf.formatted_tokens.len() {
-            if let Some(data) = olf.formatted_tokens.get_formatting_data_mut(token_index) {
-                if data.newlines_before > 0 {
-                    data.spaces_before = 0;
-                }
-            }
-        }
-
-        /*
             Indenting of multi-line strings is tricky because it requires knowing
             the intended indentation for the token beforehand, but it also could
             affect the decisions about where and when to wrap lines.
@@ -109,10 +97,29 @@ impl LogicalLineFileFormatter for OptimisingLineFormatter {
             the line wrapping caused by indentation of a multi-line string should
             not cause any multi-line strings to change in indentation.
         */
-        if !self.olf_settings.format_multiline_strings {
-            return;
+        if self.olf_settings.format_multiline_strings {
+            self.format_multiline_strings(&mut olf, input);
         }
 
+        /*
+            After each line's solution has been finalised, the extra spaces
+            provided by `TokenSpacing` can be removed at the starts of lines.
+        */
+        for token_index in 0..olf.formatted_tokens.len() {
+            if let Some(data) = olf.formatted_tokens.get_formatting_data_mut(token_index) {
+                if data.newlines_before > 0 {
+                    data.spaces_before = 0;
+                }
+            }
+        }
+    }
+}
+impl OptimisingLineFormatter {
+    fn format_multiline_strings(
+        &self,
+        olf: &mut InternalOptimisingLineFormatter<'_, '_>,
+        input: &[LogicalLine],
+    ) {
         let string_formatter = multiline_strings::StringFormatter {
             recon_settings: &self.recon_settings,
         };
